@@ -144,10 +144,15 @@ TFS = {
     'ensures': [
         # yielded == FLAT(suite): nearest declaration wins, level predicate and --test filter per leaf, order preserved
         "result == FLAT(suite, dlevel, dlayer, options, accept)",
+        # duplicated test ids are only ever added (find_tests relies on it: a duplicate is never forgotten)
+        "implies(old(duplicated_test_ids) is not None,"
+        " forall(x, Str, implies(old(x in duplicated_test_ids), x in duplicated_test_ids)))",
     ],
     'raises': {},
     'loops': {
-        '#loop1': ["G.__yield__ == PRE(suite, _i, dlevel, dlayer, options, accept)"],
+        '#loop1': ["G.__yield__ == PRE(suite, _i, dlevel, dlayer, options, accept)",
+                   "implies(old(duplicated_test_ids) is not None,"
+                   " forall(x, Str, implies(old(x in duplicated_test_ids), x in duplicated_test_ids)))"],
     },
     'rules': {'isinstance': isinstance_rule,
               'name_from_layer': lambda E, st, node, args, kws, k: k(st, VObj('LayerRef', norm(args[0].z)))},
